@@ -100,6 +100,11 @@ func TestC15(t *testing.T) {
 				Logger:          quietLogger(),
 				Test:            &plugin.ServeTestConfig{Context: ctx, ReattachConfigCh: ch, CloseCh: closeCh},
 			}
+			if p.VersionSkew {
+				sc.HandshakeConfig.ProtocolVersion = 0
+				sc.VersionedPlugins = map[int]plugin.PluginSet{3: sc.Plugins}
+				sc.Plugins = nil
+			}
 			if p.Proto == "grpc" {
 				sc.GRPCServer = plugin.DefaultGRPCServer
 			}
